@@ -151,6 +151,11 @@ def hp2dec (hp : Float) : Except PyErr Float :=
     let d := sec / 3600 + Float.ofNat mn / 60 + Float.ofNat deg
     .ok (if hp ≥ 0 then d else -d)
 
+/-- Python `min(a, b)`: `b if b < a else a` -/
+def pmin (a b : Float) : Float := if b < a then b else a
+/-- Python `max(a, b)`: `b if b > a else a` -/
+def pmax (a b : Float) : Float := if b > a then b else a
+
 def hex (x : Float) : String :=
   let b := x.toBits.toNat
   let ds := (Nat.toDigits 16 b)
